@@ -11,7 +11,7 @@
 //! lock / type args and data made of 0xff bytes (both indexers follow them).
 //!
 //! `vindexer [--seed S] [--tier quick|thorough] [histories=N] [budget_s=N] [workers=N]
-//!  [rich_mod=9 rich_per_mod=1|2 (rich_mod=0: no rich part)] [boundary_histories=N]
+//!  [rich_mod=9 rich_per_mod=1|2 (rich_mod=0: no rich part)] [rich_budget_pct=N] [boundary_histories=N]
 //!  [rich_keys_per_tip=N] [rich_keys_per_step=N] [only=HISTORY]`
 
 mod keys;
@@ -559,16 +559,18 @@ impl Hist {
 }
 
 /// Which histories are also followed by the rich-indexer: residues mod 9 spread them evenly over
-/// 8 (quick) / 10 (thorough) workers: quick 9k+5, thorough 9k+5 and 9k; 9k+5 with even k are
+/// 8 (quick) / 10 (thorough) workers: 9k+5 (rich_per_mod=2 adds 9k); 9k+5 with even k are
 /// histories with a reorg deeper than the RocksDB indexer's retention (the rich-indexer keeps
-/// everything: still asserted). A query costs ~1 ms on a busy machine (round trips to the
-/// SQLite worker thread), ~100 times a RocksDB-indexer query: hence the subset.
+/// everything: still asserted). A query costs ~0.6-1 ms on a busy machine (round trips to the
+/// SQLite worker thread), ~100 times a RocksDB-indexer query: hence the subset, and a cap on
+/// the share of a worker's time budget the rich part may use (`rich_budget_pct`: once it is
+/// used up the remaining histories of that worker are followed by the RocksDB indexer only).
 fn rich_history(hi: u64, args: &Args) -> bool {
     if boundary_history(hi, args) {
         return true;
     }
     let every = args.get_u64("rich_mod", 9);
-    let n = args.get_u64("rich_per_mod", args.tier.pick(1, 2));
+    let n = args.get_u64("rich_per_mod", 1);
     every > 0 && [5u64, 0, 2, 7, 4, 1, 6, 3, 8].iter().take(n as usize).any(|x| hi % every == *x % every)
 }
 
@@ -637,15 +639,19 @@ fn run_history(seed: u64, hi: u64, tier: Tier, args: &Args, deadline: Instant, r
     if boundary_history(hi, args) {
         r.count("histories_with_0xff_boundary_values");
     }
-    if rich_history(hi, args) {
+    let budget_ms = args.get_u64("budget_s", tier.pick(55, 780)) * 1000;
+    let rich_budget_ms = budget_ms * args.get_u64("rich_budget_pct", tier.pick(30, 10)) / 100;
+    if rich_history(hi, args) && r.counter("rich.cost_ms.total") >= rich_budget_ms {
+        r.count("rich.histories_not_followed_rich_time_budget_used_up");
+    } else if rich_history(hi, args) {
         match rich::RichIdx::new() {
             Ok(ri) => {
                 r.count("rich.histories");
                 hst.rich = Some(RichHist {
                     ri,
                     rng: rng.fork(0x5243),
-                    keys_per_tip: args.get_u64("rich_keys_per_tip", tier.pick(8, 16)) as usize,
-                    keys_per_step: args.get_u64("rich_keys_per_step", tier.pick(2, 4)) as usize,
+                    keys_per_tip: args.get_u64("rich_keys_per_tip", 8) as usize,
+                    keys_per_step: args.get_u64("rich_keys_per_step", 2) as usize,
                     rollback_keys: 4,
                     stopped: false,
                 });
@@ -735,7 +741,9 @@ fn worker(seed: u64, tier: Tier, args: &Args, his: Vec<u64>, deadline: Instant) 
     let mut r = Report::new("C18", "exploration", args, RULE);
     let mut keyset = HashSet::new();
     let mut rkeys = HashSet::new();
-    for hi in his {
+    // the few added histories with 0xff boundary values first: never the ones a tight budget drops
+    let (first, rest): (Vec<u64>, Vec<u64>) = his.into_iter().partition(|hi| boundary_history(*hi, args));
+    for hi in first.into_iter().chain(rest) {
         if Instant::now() > deadline {
             r.count("histories_skipped_by_budget");
             continue;
@@ -798,7 +806,7 @@ fn main() {
     report.note("distinct_search_keys", json!(keyset.len()));
     report.note("rich_distinct_search_keys", json!(rkeys.len()));
     report.count_n("rich.distinct_search_keys", rkeys.len() as u64);
-    report.note("rich_indexer", json!("covered (hook H8b): ckb_rich_indexer::verif::VerifRichIndexer (AsyncRichIndexer over an SQLXPool on a private in-memory SQLite database) follows a subset of the same histories (quick: hi mod 9 = 5; thorough: hi mod 9 in {0, 5}; plus the added histories with 0xff boundary values) with the same decision rule and is judged by the same model filters through AsyncRichIndexerHandle; counters `rich.*`, violation signatures `rich.*`"));
+    report.note("rich_indexer", json!("covered (hook H8b): ckb_rich_indexer::verif::VerifRichIndexer (AsyncRichIndexer over an SQLXPool on a private in-memory SQLite database) follows a subset of the same histories (hi mod 9 = 5, plus the added histories with 0xff boundary values; at most rich_budget_pct of a worker's time budget) with the same decision rule and is judged by the same model filters through AsyncRichIndexerHandle; counters `rich.*`, violation signatures `rich.*`"));
     for c in [
         "rich.histories", "rich.blocks_appended", "rich.blocks_appended_with_transactions", "rich.blocks_rolled_back", "rich.reorgs_followed", "rich.rollback_checks", "rich.tips_followed",
         "rich.queries.get_indexer_tip", "rich.queries.get_cells.exact", "rich.queries.get_cells.prefix", "rich.queries.get_cells.default", "rich.queries.get_cells.partial",
